@@ -2,29 +2,25 @@
 
 // Contracts for gvc (/verif). Comment-only: this file adds no declarations.
 
-package str
-
-// C17 sweep: str: builtins never panic, whatever their arguments.
-//@ func repeat
-//@   props C17
+package unix
 
 // C17 sweep: zero-annotation panic-freedom obligations for the module's functions,
 // for every argument value.
-//@ func fromCodepoints
+//@ func parseRlimT
 //@   props C17
-//@ func hex
+//@ func parseRlimitsMap
 //@   props C17
-//@ func fromUtf8Bytes
+//@ func checkRlimitsMapKeys
 //@   props C17
-//@ func join
+//@ func parseRlimitMap
 //@   props C17
-//@ func maxOpt.SetDefaultOptions
+//@ func checkRlimitMapKeys
 //@   props C17
-//@ func replace
+//@ func indexRlimitMap
 //@   props C17
-//@ func split
+//@ func UmaskVariable.Get
 //@   props C17
-//@ func toCodepoints
+//@ func UmaskVariable.Set
 //@   props C17
-//@ func toUtf8Bytes
+//@ func parseUmask
 //@   props C17
